@@ -39,13 +39,22 @@ RULE = ('case = (numeric table X on a dyadic grid, integer targets y, how the tr
         'objects: recombined values, objects on / one ulp around thresholds, far outside, a repeated object); the '
         'interaction stream has targets that are a pure interaction of the columns (XOR / checkerboard / parity, alone or '
         'nested below an ordinary split; balanced cells, dyadic values): CART then makes zero-gain splits, i.e. internal '
-        'nodes whose value equals the parent\'s (delta exactly 0) with a whole subtree below')
+        'nodes whose value equals the parent\'s (delta exactly 0) with a whole subtree below; the target-scale stream (H3 '
+        'applied to the TARGET) refits the small tree families with y * 2^k, k in {-28,-26,-24,-20,-10,20,40,60}, with y on a '
+        'large offset (5 + 2^-23 s, 2^40 + s), as forest members too, rewrites the node values of fitted trees to scales '
+        'sklearn refuses to split (v * 2^-60 .. 2^-24, with offsets; sibling leaf values 1-3 ulps apart) and has hand-written '
+        'maximally unbalanced trees whose deltas shrink geometrically over up to 50 binades, all with the scaling constants '
+        '2^30, 2^-30, 1e9')
 EXHAUSTIVE = {
     'quick': 'all one-column tables with 1..3 rows over the grid {0,1,2} x all targets over {0,1,3}, unbounded depth (819 trees)',
     'thorough': 'quick scope + all 2-column tables with 1..3 rows over {0,1} x all targets over {0,1,3} at depths 1 and None, '
                 'and all one-column tables with 4 rows over {0,1,2} x targets over {0,1,3}'}
-EXPLANATION = ('the property is judged on the implementation\'s own outputs: DL.predict(K) vs tree.predict(X) (rel. tol. 1e-9), '
-               '(DL*c).predict / (DL/c).predict vs c*DL.predict / DL.predict/c, and the original DL unchanged (decisions, '
+EXPLANATION = ('the property is judged on the implementation\'s own outputs: DL.predict(K) vs tree.predict(X), the stored '
+               'decisions summed along every object\'s path vs the tree\'s value, (DL*c).predict / (DL/c).predict and their '
+               'in-place histories vs c * tree.predict; "up to floating-point rounding" is the rounding unit of the tree\'s OWN '
+               'numbers, 2^-51 * max|node value| * (depth+4)^2 (times |c| for c-fold predictions) - there is no absolute '
+               'tolerance anywhere, so a delta that is dropped or rounded shows at every scale of the targets; decisions are '
+               'compared EXACTLY with the model (a delta is one correctly rounded subtraction); and the original DL unchanged (decisions, '
                'predictions, identity of the returned object). The Lean theorems Fca.C20.* prove, for every well-formed tree '
                'array set and every row, that the model\'s traced generator records are the row\'s root-to-leaf path and the sum '
                'of deltas is the leaf value (dl_predict_eq_tree, full: worklist invariant + parse inversion); the run compares the model with the implementation on: parsed decisions, concept '
@@ -105,8 +114,13 @@ def F(x):
 
 
 def _mk_case(stream, X, y, kind='tree', depth=None, seed=0, est=0, mut=None, params=None, renum=None, train=None,
-             probe=None, arrays=None, light=False):
+             probe=None, arrays=None, light=False, vmap=None, consts=None):
     c = dict(stream=stream, X=X, y=y, kind=kind, depth=depth, seed=seed, est=est)
+    if vmap:
+        c['vmap'] = vmap              # the node VALUES of the fitted tree are rewritten (same shape, same thresholds):
+                                      # {'k': e, 'off': b}: v -> b + v * 2**e;  {'ulp': B, 'j': j}: v -> B moved j * rank(v) ulps
+    if consts:
+        c['consts'] = consts          # 'big': the scaling constants 2**30, 2**-30, 1e9, -3
     if light:
         c['light'] = int(light)       # big case: that many scaling constants only (True = 1), no aliasing histories
     if train is not None:
@@ -168,8 +182,23 @@ def _ladder(t):
     return [float(t)] + [ulp_shift(t, sg * 2 ** k) for k in LADDER for sg in (1, -1)]
 
 
+CONSTS_BIG = [2.0 ** 30, 2.0 ** -30, 1e9, -3.0]
+
+
 def consts_of(c):
+    if c.get('consts') == 'big':
+        return CONSTS_BIG
     return CONSTS[:max(1, int(c['light']))] if c.get('light') else CONSTS
+
+
+def _vmap(arr, vm):
+    a = copy.deepcopy(arr)
+    if 'ulp' in vm:
+        rank = {v: i for i, v in enumerate(sorted(set(a['value'])))}
+        a['value'] = [ulp_shift(vm['ulp'], vm['j'] * rank[v]) for v in a['value']]
+    else:
+        a['value'] = [float(vm.get('off', 0.0)) + float(v) * 2.0 ** vm['k'] for v in a['value']]
+    return a
 
 
 def _f32(v):
@@ -372,6 +401,59 @@ def _mixed_scale_cases(rng, tier, boost):
             yield c
 
 
+def _vine(k, S, ratio):
+    """A maximally unbalanced hand-written tree: split i sends x <= i + 1 to a leaf and goes on to the right; the deltas
+    shrink geometrically (S, S * 2**-ratio, S * 2**-2ratio, ...) with alternating signs: deltas of MANY magnitudes in one
+    tree."""
+    left, right, feature, threshold, value = [], [], [], [], []
+    v = 3.0 * S
+    for i in range(k):
+        d = S * 2.0 ** (-ratio * i)
+        left.append(2 * i + 1); right.append(2 * i + 2); feature.append(0); threshold.append(float(i + 1)); value.append(v)
+        left.append(-1); right.append(-1); feature.append(-2); threshold.append(-2.0)
+        value.append(v - d / 2 if i % 2 else v + d / 2)                          # the left leaf of split i
+        v = v + d if i % 2 else v - d
+    left.append(-1); right.append(-1); feature.append(-2); threshold.append(-2.0); value.append(v)
+    return dict(left=left, right=right, feature=feature, threshold=threshold, value=value)
+
+
+def _target_scale_cases(rng, tier, boost):
+    """(H3 applied to the TARGET.)  The small fitted-tree families with the targets on other scales: y * 2**k for k from -60
+    to 60, y on top of a large offset (5 + 2**-23 s, 2**40 + s), sibling leaf values 1-3 ulps apart, and unbalanced trees
+    with deltas of many magnitudes.  Dyadic factors keep the arithmetic exact.  sklearn itself refuses to split a node whose
+    variance is below 2.2e-16, so besides really fitted trees (k >= -28) the node VALUES of a fitted tree are rewritten
+    (`vmap`: same shape and thresholds, any scale).  All judged by the rounding unit of the tree's own numbers, with the
+    scaling constants 2**30, 2**-30, 1e9."""
+    ntab = (6 if tier == 'quick' else 40) * (2 if boost else 1)
+    for it in range(ntab):
+        big = it % 3 == 2
+        n, m = (rng.randint(14, 30), rng.randint(2, 3)) if big else (rng.randint(5, 12), rng.randint(1, 3))
+        grid = rng.choice(GRIDS + (list(range(10)),))
+        X = [[float(rng.choice(grid)) for _ in range(m)] for _ in range(n)]
+        s_ = [float(rng.randrange(-8, 25)) for _ in range(n)]
+        sd = rng.randint(0, 10 ** 6)
+        dp = rng.choice((2, 3, None, None))
+        for k in (-28, -26, -24, -20, -10, 20, 40, 60):
+            yield _mk_case('target-scale', X, [v * 2.0 ** k for v in s_], depth=dp, seed=sd, consts='big')
+        yield _mk_case('target-scale', X, [5.0 + v * 2.0 ** -23 for v in s_], depth=dp, seed=sd, consts='big')
+        yield _mk_case('target-scale', X, [2.0 ** 40 + v for v in s_], depth=dp, seed=sd, consts='big')
+        for e in range(3):
+            yield _mk_case('target-scale', X, [v * 2.0 ** rng.choice((-26, -24, 40)) for v in s_], kind='forest', depth=dp,
+                           seed=sd, est=e, consts='big')
+        yield _mk_case('target-scale', X, [5.0 + v * 2.0 ** -23 for v in s_], kind='forest', depth=dp, seed=sd, est=it % 3,
+                       consts='big')
+        # the same fitted shapes with rewritten node values: scales sklearn cannot fit, offsets, ulp-close siblings
+        for vm in (dict(k=-60), dict(k=-40), dict(k=-30), dict(k=-24), dict(k=-30, off=5.0), dict(k=-20, off=2.0 ** 40),
+                   dict(k=-44, off=-1.0), dict(ulp=rng.choice((1.0, 5.0, 2.0 ** 40, 1e-7, -3.0)), j=1),
+                   dict(ulp=rng.choice((1.0, 2.0 ** -24, 1e9)), j=3)):
+            yield _mk_case('target-scale', X, s_, depth=dp if it % 2 else None, seed=sd, vmap=vm, consts='big')
+    for S in (1.0, 2.0 ** -24, 2.0 ** 40, 1e-7, 2.0 ** -60):
+        for k, ratio in ((6, 8), (10, 5), (4, 13)):
+            arr = _vine(k, S, ratio)
+            X = [[float(i) + 0.5] for i in range(k + 2)] + [[float(i + 1)] for i in range(k)]
+            yield _mk_case('target-scale', X, [0.0] * len(X), kind='arrays', arrays=arr, consts='big')
+
+
 def _interaction_cases(rng, tier, boost):
     """Targets that are a pure interaction of the columns (XOR, checkerboard, parity; alone or nested below an ordinary
     split): every candidate split of such a node has zero gain, so CART splits it into children whose mean EQUALS the
@@ -538,6 +620,7 @@ def gen(tier, seed, boost=False):
     yield from _eps_scale_cases(random.Random(seed * 104729 + 23))
     yield from _mixed_scale_cases(random.Random(seed * 15485863 + 3), tier, boost)
     yield from _size_cases(random.Random(seed * 32452843 + 8), tier, boost)
+    yield from _target_scale_cases(random.Random(seed * 86028121 + 13), tier, boost)
     yield from _growth_cases(random.Random(seed * 7919 + 20), tier, boost)
     # seeded random larger cases
     nctx = 150 if tier == 'quick' else 1500
@@ -810,6 +893,10 @@ def impl(c):
             return dict(skip=True)
         tree = _fake_tree(arr)
         out['tree_pred'] = None
+    elif c.get('vmap'):
+        arr = _vmap(arr, c['vmap'])
+        tree = _fake_tree(arr)
+        out['tree_pred'] = _walk(arr, rows)
     elif c.get('renum'):
         out['sk_pred'] = [float(v) for v in tree.predict(X)]
         arr = _renumber(arr, c['renum'])
@@ -886,7 +973,7 @@ def impl(c):
             out['pred2_mul'] = [float(v) for v in (D * CONSTS[0]).predict(Kh)]
             _, _, ge2 = L.trace_context(Kh, use_object_indices=True, use_generators=True, return_generators_extents=True)
             out['recs2'] = _canon_recs(ge2)
-            if c['kind'] != 'arrays' and not c.get('renum'):
+            if c['kind'] != 'arrays' and not c.get('renum') and not c.get('vmap'):
                 sk2 = [float(v) for v in tree.predict(np.array(rows2, dtype=float))]
                 out['sk_rows2'] = [[i, sk2[i]] for i, r_ in enumerate(rows2) if _f32_exact(r_)]
         except Exception as e:
@@ -1029,12 +1116,42 @@ def requests(c, io):
                  fast=len(a['left']) >= FAST_NODES)]
 
 
-def close(a, b, tol=1e-9):
-    return abs(a - b) <= tol * max(1.0, abs(a), abs(b))
+def close(a, b, tol):
+    """|a - b| <= tol, `tol` ABSOLUTE and derived from the tree's own numbers (`_unit`): never a fixed constant."""
+    return abs(a - b) <= tol
 
 
-def closev(xs, ys, tol=1e-9):
+def closev(xs, ys, tol):
     return len(xs) == len(ys) and all(close(float(a), float(b), tol) for a, b in zip(xs, ys))
+
+
+def _depth(a):
+    n = len(a['left'])
+    d = [0] * n
+    for i in range(n):
+        for ch in (a['left'][i], a['right'][i]):
+            if isinstance(ch, int) and i < ch < n:
+                d[ch] = max(d[ch], d[i] + 1)
+    return max(d) if d else 0
+
+
+def _unit(io):
+    """What "up to floating-point rounding" means for THIS tree: with M = max |node value| and D = depth, a prediction is
+    a sum (in any order) of at most D + 1 float64 deltas of magnitude <= 2M, each correctly rounded:
+    |error| <= 2^-53 M (D+1)(2D+3).  The unit is 2^-51 M (D+4)^2 (room for the few roundings of `* c`, `* k1`, `/ k2`);
+    a comparison of c-fold predictions uses |c| times the unit.  For M = 1, D = 6 this is 4.4e-14 - a delta of 1e-12 that
+    goes missing is seen, whatever the scale of the targets (the unit scales with them)."""
+    a = io.get('arrays') or {}
+    M = max([abs(float(v)) for v in a.get('value', [])] or [0.0])
+    return 2.0 ** -51 * M * (_depth(a) + 4) ** 2 if a else 0.0
+
+
+def _path(a, x):
+    i, out = 0, [0]
+    while a['left'][i] != -1:
+        i = a['left'][i] if float(x[a['feature'][i]]) <= a['threshold'][i] else a['right'][i]
+        out.append(i)
+    return out
 
 
 def Q(p):
@@ -1097,10 +1214,28 @@ def judge(c, io, rep):
     if 'err' in io:
         return bad('property', f'conversion/prediction raised {io["err"]}: {io.get("msg")}')
     tp = io['tree_pred']
-    if not closev(io['pred'], tp):
-        return bad('property', f'DL.predict(K) = {io["pred"]} but tree.predict(X) = {tp}')
+    u = _unit(io)
+    if not closev(io['pred'], tp, u):
+        worst = max(range(len(tp)), key=lambda g: abs(io['pred'][g] - tp[g])) if len(tp) == len(io['pred']) else 0
+        return bad('property', f'DL.predict(K) = {io["pred"]} but tree.predict(X) = {tp} (object {worst}: off by '
+                               f'{abs(io["pred"][worst] - tp[worst]) if len(tp) == len(io["pred"]) else "?"!r}, rounding '
+                               f'allows {u!r} for a tree with values up to {max(abs(v) for v in io["arrays"]["value"])!r})')
+    # the stored decisions themselves: along the path of every object they must add up to the tree's value (a node whose
+    # non-zero delta has no decision, or a rounded one, shows here even when `predict` were to hide it)
+    dec = {}
+    for d_ in io['decisions']:
+        dec[d_['c']] = dec.get(d_['c'], 0.0) + d_['dy']
+    a_ = io['arrays']
+    for g, x in enumerate(io['X']):
+        pth = _path(a_, x)
+        ssum = math.fsum(dec.get(k, 0.0) for k in pth)
+        if abs(ssum - tp[g]) > u:
+            miss = [k for k in pth if k not in dec]
+            return bad('property', f'the decisions stored for the nodes {pth} on the path of object {g} = {x} add up to '
+                                   f'{ssum!r}, the tree predicts {tp[g]!r} (nodes without a decision: {miss}; rounding '
+                                   f'allows {u!r})')
     for i, v in io.get('sk_rows', []):
-        if not close(v, tp[i]):
+        if not close(v, tp[i], u):
             return bad('correspondence', f'sklearn predict {v} != standard descent on the arrays {tp[i]} for the '
                                          f'float32-exact row {i} = {io["X"][i]}')
     if not io.get('succ_ok', True):
@@ -1109,13 +1244,14 @@ def judge(c, io, rep):
         if 'err' in s:
             return bad('property', f'scaling by {s["c"]} raised {s["err"]}')
         c_ = s['c']
-        want = {'mul': [c_ * v for v in io['pred']], 'div': [v / c_ for v in io['pred']],
-                'mul_imul': [c_ * K1 * v for v in io['pred']], 'mul_imul_idiv': [c_ * K1 / K2 * v for v in io['pred']],
-                'div_idiv': [v / c_ / K2 for v in io['pred']], 'div_idiv_imul': [v / c_ / K2 * K1 for v in io['pred']]}
-        for k_, w_ in want.items():
-            if not closev(s[k_], w_):
+        # judged against c * (what the TREE predicts), with |c| times the rounding unit of the tree
+        fac = {'mul': c_, 'div': 1.0 / c_, 'mul_imul': c_ * K1, 'mul_imul_idiv': c_ * K1 / K2,
+               'div_idiv': 1.0 / c_ / K2, 'div_idiv_imul': 1.0 / c_ / K2 * K1}
+        for k_, f_ in fac.items():
+            w_ = [f_ * v for v in tp]
+            if not closev(s[k_], w_, abs(f_) * u):
                 return bad('property', f'scaling history {k_} with c={c_!r} ({s["ctype"]}), k1={K1}, k2={K2}: predicts '
-                                       f'{s[k_]}, expected {w_}')
+                                       f'{s[k_]}, expected {f_!r} * tree.predict = {w_} (rounding allows {abs(f_) * u!r})')
         if not s['orig_decisions_kept'] or s['orig_pred'] != io['pred']:
             return bad('property', f'the original changed after p = DL*{c_!r} ({s["ctype"]}); p *= {K1}; p /= {K2} / '
                                    f'q = DL/{c_!r}; q /= {K2}; q *= {K1}: original now predicts {s["orig_pred"]}, before {io["pred"]}')
@@ -1125,7 +1261,7 @@ def judge(c, io, rep):
                 return bad('property', f'aliasing history [{label}] failed')
             continue
         want_ = [factor * v for v in tp]
-        if isinstance(got, str) or not closev(got, want_):
+        if isinstance(got, str) or not closev(got, want_, abs(factor) * u):
             return bad('property', f'aliasing history [{label}]: predicts {got}, expected {want_} '
                                    f'(tree values {tp} times {factor})')
     if io['decisions_after'] != io['decisions'] or io['pred_after'] != io['pred']:
@@ -1138,7 +1274,7 @@ def judge(c, io, rep):
         if not s['fresh']:
             return bad('correspondence', f'DL*{s["c"]!r} or DL/{s["c"]!r} ({s["ctype"]}) shares state with the original '
                                          f'(same object, lattice, decisions or generator dictionary)')
-    if c.get('renum') and not closev(io['tree_pred'], io['sk_pred']):
+    if c.get('renum') and not closev(io['tree_pred'], io['sk_pred'], u):
         return bad('harness', f'renumbering changed the tree: walk {io["tree_pred"]} sklearn {io["sk_pred"]}')
     # ---- Lean checker on the implementation's records ----------------------------------------------------------------
     if not r['wf'] and io['eps'] is not None:
@@ -1186,8 +1322,9 @@ def judge(c, io, rep):
         return bad('correspondence', f'lattice differs: impl {lat} model {cv["n_concepts"], cv["top"], cv["extents"]}')
     md = cv['decisions']
     if len(md) != len(io['decisions']) or any(
-            (a['sup'], a['c']) != (b['sup'], b['c']) or not _gen_close(a['gen'], b['gen']) or not close(float(Q(a['dy'])), b['dy'])
+            (a['sup'], a['c']) != (b['sup'], b['c']) or not _gen_close(a['gen'], b['gen']) or float(Q(a['dy'])) != b['dy']
             for a, b in zip(md, io['decisions'])):
+        # (a delta is ONE correctly rounded float64 subtraction: the model's exact rational, rounded, is that very float)
         return bad('correspondence', f'decisions differ: impl {io["decisions"]} model {md}')
     mr = r['recs']['ok']
     if len(mr) != len(io['recs']) or any(
@@ -1195,8 +1332,10 @@ def judge(c, io, rep):
             for a, b in zip(mr, io['recs'])):
         return bad('correspondence', f'generator records differ: impl {io["recs"]} model {mr}')
     for s, ms in zip(io['scaled'], r['scaled']):
+        fac = {'mul': s['c'], 'div': 1.0 / s['c'], 'mul_imul': s['c'] * K1, 'mul_imul_idiv': s['c'] * K1 / K2,
+               'div_idiv': 1.0 / s['c'] / K2, 'div_idiv_imul': 1.0 / s['c'] / K2 * K1}
         for k_ in ('mul', 'div', 'mul_imul', 'mul_imul_idiv', 'div_idiv', 'div_idiv_imul'):
-            if 'ok' not in ms[k_] or not closev(s[k_], [float(Q(p)) for p in ms[k_]['ok']]):
+            if 'ok' not in ms[k_] or not closev(s[k_], [float(Q(p)) for p in ms[k_]['ok']], abs(fac[k_]) * u):
                 return bad('correspondence', f'scaled predictions ({k_}) differ for c={s["c"]}: impl {s[k_]} model {ms[k_]}')
     # ---- the lattice asked about another context (outside the letter of the property: reported as correspondence) --------
     if 'pred2' in io:
@@ -1211,13 +1350,13 @@ def judge(c, io, rep):
             return bad('harness', 'descent on the arrays differs between Python and Lean on the other context')
         if isinstance(io['pred2'], str):
             return bad('correspondence', f'DL.predict(another context {io["X2"]}) raised {io["pred2"]}; the model predicts {tp2}')
-        if not closev(io['pred2'], tp2):
+        if not closev(io['pred2'], tp2, u):
             return bad('correspondence', f'DL.predict(another context {io["X2"]}) = {io["pred2"]} but the tree predicts {tp2}')
         for i, v in io.get('sk_rows2', []):
-            if not close(v, tp2[i]):
+            if not close(v, tp2[i], u):
                 return bad('correspondence', f'sklearn predict {v} != standard descent {tp2[i]} for the float32-exact held-out '
                                              f'row {io["X2"][i]}')
-        if not closev(io['pred2_mul'], [float(CONSTS[0]) * v for v in io['pred2']]):
+        if not closev(io['pred2_mul'], [float(CONSTS[0]) * v for v in tp2], abs(float(CONSTS[0])) * u):
             return bad('correspondence', f'(DL*{CONSTS[0]}).predict(another context) = {io["pred2_mul"]}, expected '
                                          f'{CONSTS[0]} * {io["pred2"]}')
         mr2 = o['recs']['ok']
@@ -1245,7 +1384,7 @@ def _judge_malformed(c, io, r):
     if 'err' in r['conv'] or 'ok' not in r['pred']:
         return bad('correspondence', f'malformed[{c["mut"]}]: implementation succeeds with {io["pred"]}, model raises '
                                      f'{r["conv"] if "err" in r["conv"] else r["pred"]}')
-    if not closev(io['pred'], [float(Q(p)) for p in r['pred']['ok']]):
+    if not closev(io['pred'], [float(Q(p)) for p in r['pred']['ok']], _unit(io)):
         return bad('correspondence', f'malformed[{c["mut"]}]: predictions differ: impl {io["pred"]} model {r["pred"]["ok"]}')
     return dict(ok=True)
 
@@ -1261,7 +1400,8 @@ def nontrivial(c):
 
 def key(c):
     return [c['X'], c['y'], c['kind'], c['depth'], c['seed'] if (c['kind'] == 'forest' or len(c['X'][0]) > 1) else 0,
-            c['est'], c.get('mut'), c.get('params'), c.get('renum'), c.get('train'), c.get('probe'), c.get('arrays')]
+            c['est'], c.get('mut'), c.get('params'), c.get('renum'), c.get('train'), c.get('probe'), c.get('arrays'),
+            c.get('vmap')]
 
 
 def branch(c, io, rep):
